@@ -212,10 +212,7 @@ fn main() {
 }
 
 fn watchdog_secs() -> u32 {
-    std::env::var("NBSIM_WATCHDOG_S")
-        .ok()
-        .and_then(|s| s.parse().ok())
-        .unwrap_or(20)
+    sup::watchdog_secs()
 }
 
 #[allow(clippy::too_many_arguments)]
